@@ -1,8 +1,15 @@
 package props
 
 import (
+	"bufio"
+	"bytes"
 	"fmt"
+	"io"
+	"os"
+	"os/exec"
+	"path/filepath"
 	"strings"
+	"sync"
 	"testing"
 	"time"
 
@@ -90,6 +97,15 @@ func judgeBestmove(line string, g *oracle.Game) error {
 	return fmt.Errorf("%q is not a legal move in %s", line, g.Cur().FEN())
 }
 
+// uciPeer is what the round runner needs from a driver, in-process or a real binary.
+type uciPeer interface {
+	send(line string) bool
+	barrier() string
+	snapshotLines() []string
+	waitFor(pred func(lines []string, closed bool) bool, grace time.Duration) bool
+	quit() bool
+}
+
 var checkC04 = def("C04/bestmove", func(c goCase) error {
 	bd, err := findBundle(c.Engine)
 	if err != nil {
@@ -98,6 +114,10 @@ var checkC04 = def("C04/bestmove", func(c goCase) error {
 	e, opts := bd.make(c.Hash, c.Noise, 0, nil)
 	s := newUCISession(e, opts...)
 	defer s.quit()
+	return runGoRounds("C04/bestmove", c, s)
+})
+
+func runGoRounds(key string, c goCase, s uciPeer) error {
 	g := oracle.NewGame(oracle.MustFEN(oracle.InitialFEN))
 	var labels []string
 	gos := 0
@@ -202,10 +222,10 @@ var checkC04 = def("C04/bestmove", func(c goCase) error {
 		}
 	}
 	labels = append(labels, fmt.Sprintf("hash:%d", c.Hash), fmt.Sprintf("noise:%d", c.Noise))
-	stats.Case("C04/bestmove", stats.FP(c.Engine, c.Hash, c.Noise, fmt.Sprint(c.Rounds)), nt, dedup(labels)...)
-	stats.Note("C04/bestmove", "go_commands", int64(gos))
+	stats.Case(key, stats.FP(c.Engine, c.Hash, c.Noise, fmt.Sprint(c.Rounds)), nt, dedup(labels)...)
+	stats.Note(key, "go_commands", int64(gos))
 	return nil
-})
+}
 
 func goKind(line string) string {
 	f := strings.Fields(line)
@@ -308,5 +328,183 @@ func TestC04_bestmove(t *testing.T) {
 	runRapid(t, "C04/bestmove", 2400, genGoCase, func(c goCase) error {
 		stats.Sample("C04/bestmove", c)
 		return checkC04(c)
+	})
+}
+
+// ---------------------------------------------------------------------------------------
+// Black box: the real cmd/* binaries built from the working tree, driven over pipes.
+
+type procSession struct {
+	cmd    *exec.Cmd
+	stdin  io.WriteCloser
+	stderr *bytes.Buffer
+
+	mu     sync.Mutex
+	cond   *sync.Cond
+	lines  []string
+	closed bool
+	sent   int
+}
+
+func startEngineProcess(name string, args ...string) (*procSession, error) {
+	dir := os.Getenv("VERIF_BIN")
+	if dir == "" {
+		dir = filepath.Join(verifRoot(), ".build", "bin")
+	}
+	p := &procSession{stderr: &bytes.Buffer{}}
+	p.cond = sync.NewCond(&p.mu)
+	p.cmd = exec.Command(filepath.Join(dir, name), append([]string{"-logtostderr=true"}, args...)...)
+	p.cmd.Stderr = p.stderr
+	var err error
+	if p.stdin, err = p.cmd.StdinPipe(); err != nil {
+		return nil, err
+	}
+	out, err := p.cmd.StdoutPipe()
+	if err != nil {
+		return nil, err
+	}
+	if err := p.cmd.Start(); err != nil {
+		return nil, err
+	}
+	go func() {
+		sc := bufio.NewScanner(out)
+		for sc.Scan() {
+			p.mu.Lock()
+			p.lines = append(p.lines, sc.Text())
+			p.cond.Broadcast()
+			p.mu.Unlock()
+		}
+		p.mu.Lock()
+		p.closed = true
+		p.cond.Broadcast()
+		p.mu.Unlock()
+	}()
+	p.send("uci")
+	if !p.waitFor(func(lines []string, closed bool) bool { return count(lines, "uciok") > 0 || closed }, uciGrace) || count(p.snapshotLines(), "uciok") == 0 {
+		p.kill()
+		return nil, fmt.Errorf("%s did not answer uci with uciok", name)
+	}
+	return p, nil
+}
+
+func (p *procSession) send(line string) bool {
+	_, err := io.WriteString(p.stdin, line+"\n")
+	return err == nil
+}
+
+func (p *procSession) waitFor(pred func(lines []string, closed bool) bool, grace time.Duration) bool {
+	deadline := time.Now().Add(grace)
+	timer := time.AfterFunc(grace, func() {
+		p.mu.Lock()
+		p.cond.Broadcast()
+		p.mu.Unlock()
+	})
+	defer timer.Stop()
+	p.mu.Lock()
+	defer p.mu.Unlock()
+	for !pred(p.lines, p.closed) {
+		if time.Now().After(deadline) {
+			return false
+		}
+		p.cond.Wait()
+	}
+	return true
+}
+
+func (p *procSession) barrier() string {
+	if !p.send("isready") {
+		return "engine process no longer accepts input"
+	}
+	p.mu.Lock()
+	p.sent++
+	want := p.sent
+	p.mu.Unlock()
+	p.waitFor(func(lines []string, closed bool) bool { return count(lines, "readyok") >= want || closed }, uciGrace)
+	p.mu.Lock()
+	defer p.mu.Unlock()
+	if count(p.lines, "readyok") >= want {
+		return ""
+	}
+	if p.closed {
+		return "engine process ended: " + lastNonLogLines(p.stderr.String())
+	}
+	return fmt.Sprintf("no readyok within %v (deadlock)", uciGrace)
+}
+
+func (p *procSession) snapshotLines() []string {
+	p.mu.Lock()
+	defer p.mu.Unlock()
+	return append([]string(nil), p.lines...)
+}
+
+func (p *procSession) quit() bool {
+	p.send("quit")
+	ok := p.waitFor(func(_ []string, closed bool) bool { return closed }, uciGrace)
+	done := make(chan error, 1)
+	go func() { done <- p.cmd.Wait() }()
+	select {
+	case <-done:
+	case <-time.After(uciGrace):
+		p.kill()
+		return false
+	}
+	return ok
+}
+
+func (p *procSession) kill() {
+	if p.cmd.Process != nil {
+		_ = p.cmd.Process.Kill()
+	}
+}
+
+func lastNonLogLines(s string) string {
+	var keep []string
+	for _, l := range strings.Split(s, "\n") {
+		if len(l) > 5 && (l[0] == 'I' || l[0] == 'W' || l[0] == 'E') && l[1] >= '0' && l[1] <= '9' {
+			continue
+		}
+		if strings.TrimSpace(l) != "" {
+			keep = append(keep, l)
+		}
+	}
+	if len(keep) > 12 {
+		keep = keep[:12]
+	}
+	return strings.Join(keep, " | ")
+}
+
+var checkC04BlackBox = def("C04/blackbox", func(c goCase) error {
+	var args []string
+	if c.Engine == "bernstein" {
+		args = append(args, "-ply=2")
+	}
+	if c.Engine != "morlock" {
+		args = append(args, fmt.Sprintf("-noise=%d", c.Noise))
+	}
+	p, err := startEngineProcess(c.Engine, args...)
+	if err != nil {
+		return err
+	}
+	defer p.kill()
+	if c.Engine == "morlock" {
+		p.send(fmt.Sprintf("setoption name Hash value %d", c.Hash))
+		p.send(fmt.Sprintf("setoption name Noise value %d", c.Noise))
+	}
+	if err := runGoRounds("C04/blackbox", c, p); err != nil {
+		return err
+	}
+	if txt := p.stderr.String(); strings.Contains(txt, "panic:") || strings.Contains(txt, "fatal error:") {
+		return fmt.Errorf("engine process crashed: %s", lastNonLogLines(txt))
+	}
+	return nil
+})
+
+func TestC04_blackbox(t *testing.T) {
+	if _, err := os.Stat(filepath.Join(os.Getenv("VERIF_BIN"), "morlock")); err != nil && os.Getenv("VERIF_BIN") != "" {
+		t.Skip("engine binaries not built")
+	}
+	runRapid(t, "C04/blackbox", 160, genGoCase, func(c goCase) error {
+		stats.Sample("C04/blackbox", c)
+		return checkC04BlackBox(c)
 	})
 }
